@@ -135,8 +135,8 @@ def impl(case):
                 return {"coef": [float(v) for v in t.coef_], "pred": [float(v) for v in t.predict((np.array(qe), np.array(qn)))]}
             which, es, ns, shape2d, data, params = a
             g, ncomp = build(which, params)
-            coords = (np.array(es).reshape(shape2d), np.array(ns).reshape(shape2d))
-            d = tuple(np.array(x).reshape(shape2d) for x in data[:ncomp])
+            coords = (C.mkarr(es, shape2d, case["op"]), C.mkarr(ns, shape2d, case["op"]))
+            d = tuple(C.mkarr(x, shape2d, case["op"]) for x in data[:ncomp])
             g.fit(coords, d[0] if ncomp == 1 else d)
             pred = g.predict(coords)
             pred = (pred,) if ncomp == 1 else pred
